@@ -492,7 +492,7 @@ def tree_variants(spec):
             new['nodes'][n]['falsy'] = False
             yield new
         for j, (name, m) in enumerate(nd.get('meth', [])):
-            for field in ('alias', 'conf'):
+            for field in ('alias', 'conf', 'tooldeco'):
                 if m.get(field):
                     new = copy.deepcopy(spec)
                     new['nodes'][n]['meth'][j][1].pop(field)
